@@ -77,7 +77,7 @@ def _setup():
     simple, cmds, MAIN_REPORT = c01.simple, c01.cmds, c01.MAIN_REPORT
 
 
-def make_body(max_len, sup_len, ALPHA=ALPHA):
+def make_body(max_len, sup_len, ALPHA=ALPHA, own_report=False):
     def body(ctx):
         L = ctx.choose(max_len, 'len') + 1
         seq = [ctx.choose(len(ALPHA), 'fb%d' % k) for k in range(L)]
@@ -85,17 +85,41 @@ def make_body(max_len, sup_len, ALPHA=ALPHA):
         sups = supsets[ctx.choose(len(supsets), 'sups')]
         first = bool(ctx.choose(2, 'sups-first')) if sups else False
         cmds.clear_report()
+        mine = None
+        resolve = simple.resolve
+        if own_report:
+            # everything happens on a Report of the caller's own; the global report holds decoys of both verdicts
+            from pedal.core.report import Report
+            how = ('keyword', 'positional')[ctx.choose(2, 'report-passed-by')]
+            decoy = ctx.choose(2, 'decoy')
+            if decoy:
+                c01.Feedback(label='decoy', category='syntax', message='decoy on the global report', priority='highest')
+            mine = Report()
+            resolve = (lambda: simple.resolve(report=mine)) if how == 'keyword' else (lambda: simple.resolve(mine))
+
+        def apply_sups():
+            for (c, l, f) in sups:
+                cmds.suppress(c, l, f, **({'report': mine} if mine is not None else {}))
         if first:
-            c01._apply_sups(sups)
+            apply_sups()
             ctx.step(('suppress', sups))
         fbs = []
         for k, di in enumerate(seq):
             ctx.step(('create', ALPHA[di]))
-            fbs.append(c01._mk(ALPHA[di], k))
+            d = dict(ALPHA[di])
+            if mine is not None:
+                d['report'] = mine
+            fb = c01._mk(d, k)
+            if mine is not None and getattr(fb, '_verif_req', None):
+                fb._verif_req.pop('report', None)
+            fbs.append(fb)
         if sups and not first:
-            c01._apply_sups(sups)
+            apply_sups()
             ctx.step(('suppress', sups))
         case = {'feedbacks': [ALPHA[i] for i in seq], 'suppressions': sups, 'suppress_first': first}
+        if own_report:
+            case['own_report'] = how
+            case['decoy_on_global_report'] = bool(decoy)
         canon = repr([(type(f).__name__, f.label, f.category, f.kind, bool(f), f.muted, f.correct) for f in fbs]) + repr(sups)
         ctx.observe(canon)
         ctx.set_sample(case)
@@ -107,7 +131,7 @@ def make_body(max_len, sup_len, ALPHA=ALPHA):
             ctx.mark_nontrivial(canon)
         ctx.step('simple.resolve')
         try:
-            r = simple.resolve()
+            r = resolve()
         except Exception as e:
             ctx.fail({'symptom': 'resolve raised', 'exception': type(e).__name__}, case=case, message=str(e)[:200])
             return
@@ -139,5 +163,9 @@ def phases(tier):
     else:
         b = make_body(4, 3)
     return [Phase('correctness', b, setup=_setup, describe='all creation sequences x suppression sets x placement'),
+            Phase('own-report', make_body(2, 1, [d for d in ALPHA if d.get('via') in (None, 'gently', 'explain', 'guidance',
+                                                                               'compliment', 'set_correct', 'give_partial')],
+                                          own_report=True), setup=_setup,
+                  describe='sequences <=2 on a caller-owned Report passed by keyword or position, decoy on the global report'),
             Phase('systematic-pairs', make_body(2, 2 if tier == 'thorough' else 1, SYS), setup=_setup,
                   describe='all sequences of <=2 over category x correct x valence x state (%d descriptors)' % len(SYS))]
